@@ -21,8 +21,9 @@ type Ctx struct {
 	Tier string
 	Ix   *fold.InitIndex
 
-	cacheNF  []nfPath
-	cacheNFL *readerLayout
+	errTextLen *fold.Int
+	cacheNF    []nfPath
+	cacheNFL   *readerLayout
 }
 
 // Property describes one property check.
